@@ -110,7 +110,20 @@ func (e *Exec) intrinsic(name string, args []Value, fn *ssa.Function, fr *frame)
 		return args[0]
 	case "strings.Clone":
 		s := args[0].(*Str)
-		return s
+		if s.Opaque || s.Base.Obj == nil {
+			return s
+		}
+		n := e.concretize(s.Len, 0, e.job.MaxAlloc)
+		if n == 0 {
+			return &Str{Off: e.c64(0), Len: e.c64(0)}
+		}
+		a := &ArrayV{E: make([]Value, n)}
+		for i := int64(0); i < n; i++ {
+			a.E[i] = e.strBytes(s, e.c64(i))
+		}
+		o := e.newObject(a, nil, "strings.Clone")
+		o.ro = true
+		return &Str{Base: Loc{Obj: o}, Off: e.c64(0), Len: e.c64(n)}
 	case "bytes.Clone":
 		s := args[0].(*Slice)
 		if s.Base.Obj == nil {
